@@ -1,5 +1,5 @@
 import GSProofs.Lemmas.LinkTrackRefine
-/-! Refinement step for `FinishTracking`, and the refinement theorem for whole histories. -/
+/-! Refinement step for `FinishTracking`. -/
 set_option linter.unusedSimpArgs false
 namespace GS.LinkTrack
 open PeerTracker
@@ -23,11 +23,6 @@ theorem finishTracking_some {p : PeerTracker} {r : Req} {k : Key} (h0 : aget p.d
        (((aget p.alts k).getD {}).finishRequest r).2) := by
   unfold finishTracking setTracker trackerOf
   simp only [h0, scopeTracker, setScopeTracker]
-
-theorem proj_eq_nil {L : List PEntry} {s : Option Key} (h : ∀ e ∈ L, e.1 ≠ s) : proj L s = [] := by
-  unfold proj
-  simp only [List.map_eq_nil_iff, List.filter_eq_nil_iff]
-  intro e he; simp [h e he]
 
 theorem aget_aerase_upd {α : Type} {m : List (Nat × α)} {f : Req → Option α} (h : ∀ r, aget m r = f r) (r r' : Req) :
     aget (aerase m r) r' = upd f r none r' := by
@@ -223,35 +218,5 @@ theorem R_finish {p : PeerTracker} {σ : Spec} (h : R p σ) (r : Req) :
     · simp only
       have := hflag ((aget p.alts k).getD {}) (by rw [hs]; exact halt)
       exact this
-
-/-! ### whole histories -/
-
-theorem step_refines {p : PeerTracker} {σ : Spec} (h : R p σ) (o : Op) (hok : σ.ok o) :
-    R (step p o).1 (σ.step o).1 ∧ (step p o).2 = (σ.step o).2 := by
-  cases o with
-  | dedup r k => exact ⟨R_dedup h r k hok, rfl⟩
-  | ignore r ls => exact ⟨R_ignore h r ls, rfl⟩
-  | skip r n => exact ⟨R_skip h r n, rfl⟩
-  | trav r l b => exact R_trav h r l b
-  | finish r =>
-    have := R_finish h r
-    exact ⟨this.1, by simp only [step, Spec.step]; rw [this.2]⟩
-  | finishErr r =>
-    have := R_finish h r
-    exact ⟨this.1, by simp only [step, Spec.step]; rw [this.2]⟩
-  | clear r =>
-    have := R_finish h r
-    exact ⟨this.1, by simp only [step, Spec.step]; rw [this.2]⟩
-
-theorem runFrom_refines {p : PeerTracker} {σ : Spec} (h : R p σ) (ops : List Op) (hwf : σ.WFfrom ops) :
-    R (runFrom p ops).1 (σ.runFrom ops).1 ∧ (runFrom p ops).2 = (σ.runFrom ops).2 := by
-  induction ops generalizing p σ with
-  | nil => exact ⟨h, rfl⟩
-  | cons o os ih =>
-    obtain ⟨hok, hrest⟩ := hwf
-    have h1 := step_refines h o hok
-    have h2 := ih h1.1 hrest
-    simp only [runFrom, Spec.runFrom]
-    exact ⟨h2.1, by rw [h1.2, h2.2]⟩
 
 end GS.LinkTrack
